@@ -64,7 +64,9 @@ def build_requests(ctx, T, codes):
                     continue
                 ks = marks_for(row.best)
                 kbest = int(row.best * 100) if (row.best * 100).denominator == 1 else None
-                for ev in (row.event, W.ascii_lower(row.event)):
+                mixed = ''.join(ch.lower() if i % 2 else ch.upper() for i, ch in enumerate(row.event))     # 'Hj', '5kW', 'MiLe'
+                for ev in dict.fromkeys((row.event, W.ascii_lower(row.event), mixed)):
+                    if ev == mixed and quick and ev not in (row.event, W.ascii_lower(row.event)) and (gi + len(reqs)) % 3: continue
                     bi = len(reqs)
                     reqs.append(('best', y, GENDERS[g][gi % 8], None, ev, None, '', None)); gi += 1
                     for a2 in range(2 * a0, 2 * (last + 20) + 1):
@@ -93,7 +95,7 @@ def build_requests(ctx, T, codes):
     hurd = ['100H', '110h', '80H', '400H', '300h', '200H', '150H', '60H']
     for g in 'mf':
         for row in t.rows[g]:
-            for ev in (row.event, W.ascii_lower(row.event)):
+            for ev in dict.fromkeys((row.event, W.ascii_lower(row.event), ''.join(ch.lower() if i % 2 else ch.upper() for i, ch in enumerate(row.event)))):
                 for a2 in range(70, 2 * (t.ages[-1] + 20) + 1):
                     reqs.append(('factor', 'athlons', GENDERS[g][gi % 8], a2, ev, None, '', None)); gi += 1
                 for a2 in (0, 2, 40, 69):
